@@ -304,8 +304,9 @@ class StmtInferrer(ast.NodeVisitor):
               anno.setanno(node, anno.Static.VALUE, value)
 
     elif isinstance(node.ctx, ast.Store):
-      if self.rtype is not None:
-        self.new_symbols[name] = self.rtype
+      # Note: a store of a value of unknown type (None) must still be recorded,
+      # so that the types of a previous store do not linger.
+      self.new_symbols[name] = self.rtype
       types = self.rtype
 
     else:
@@ -572,7 +573,11 @@ class Analyzer(cfg.GraphVisitor):
     inferrer = StmtInferrer(self.resolver, self.scope, self.namespace,
                             self.closure_types, types_in)
     inferrer.visit(ast_node)
-    types_out.types.update(inferrer.new_symbols)
+    for symbol, symbol_types in inferrer.new_symbols.items():
+      if symbol_types is None:
+        types_out.types.pop(symbol, None)
+      else:
+        types_out.types[symbol] = symbol_types
 
     reaching_fndefs = anno.Static.DEFINED_FNS_IN.of(ast_node)
     node_scope = anno.Static.SCOPE.of(ast_node, None)
